@@ -81,7 +81,8 @@ package iface
 //@   props C07
 //@   requires context: ctx != nil && ctx.p != nil && apply != nil && 0 <= len(ctx.p.retained) && len(ctx.p.retained) < 0x10000
 //@   requires holder: stub.holder_wf()
-//@   assigns everything
+//@   assigns stub.placeHolderIns.off, ticket_lo, ticket_hi, textmem, perm, rw_wheld[addr(memory.memoryAccessLock)], ctx.p.proxyFunc, ctx.p.retained,
+//@     | ctx.p.retained[len(ctx.p.retained) : cap(ctx.p.retained)], unexports2.symTable, unexports2.symTableLoadError, unexports2.funcAlignment, unexports2.varAlignment
 //@   ensures embedded_func_value_anchored_in_the_context: len(ctx.p.retained) == old(len(ctx.p.retained)) + 1 && (proxy == nil ==> ctx.p.retained[len(ctx.p.retained) - 1] == apply)
 //@   ensures earlier_anchors_kept: forall k int :: 0 <= k && k < old(len(ctx.p.retained)) ==> ctx.p.retained[k] == old(ctx.p.retained[k])
 //@   panics_only_if stub_space_or_symbol_lookup_failed: true
